@@ -1,5 +1,5 @@
 """C01 -- canonical output is well-formed ASCII in every component."""
-from .common import run_progs, run_value_machine
+from .common import run_progs, run_value_machine, run_harvest
 from .quoterlevel import run_quoter_level
 
 FINISH = dict(rule="R1 MC_Quoters (both transducer models write only well-formed text); R2 every enumerated text through the "
@@ -13,3 +13,4 @@ def run(out, sc, tier, seed):
     run_value_machine(out, sc, "C01", tier, fields=FIELDS)
     n = 12000 if tier == "quick" else 300000
     run_progs(out, sc, "C01", {"gen": "progs", "n": n, "seed": seed, "surrogate_p": 0.1, "fields": FIELDS}, "progs")
+    run_harvest(out, sc, "C01")
